@@ -99,7 +99,9 @@ func runPromStep(s *mwSession, st promStep) (events []M) {
 }
 
 func genPromMsgs(r *Rng, g *EvGen, n int) []promStep {
-	subs := []string{"a", "b", "c"}
+	// short ids, and long ids that share a long common prefix (keys must not be truncated or hashed)
+	long := "pppppppppppppppppppppppppppppppppppppppppppppppppppppppppppppppp"
+	subs := []string{"a", "b", "c", long + "-x", long + "-y", long + long + long + long + "1", long + long + long + long + "2"}
 	var steps []promStep
 	for i := 0; i < n; i++ {
 		switch r.Intn(12) {
